@@ -44,7 +44,7 @@ def build(program: dict) -> dict:
     spec = copy.deepcopy(TREES[program["tree"]])
     for p, nd in paths(spec):
         for phase in ("prepare", "start"):
-            steps: list = [("td", f"td:{p}:{phase}"), ("gate", "g"), ("td", f"td2:{p}:{phase}")]
+            steps: list = [("td", f"td:{p}:{phase}"), ("gate", "g"), ("tdn" if phase == "start" else "td", f"td2:{p}:{phase}")]
             nd[phase] = steps
     end = program["end"]
     if end["kind"] == "fail":
@@ -206,7 +206,17 @@ class C15(E1Check):
         tree = env.data["tree"]
         ra = next(i for i, ev in enumerate(tr) if ev[0] in ("RA-return", "RA-exit", "RA-raise"))
         # teardown: everything registered ran exactly once, in reverse order, before run_application returned or raised
-        regs = [ev[1] for ev in tr if ev[0] == "td-reg"]
+        regs0 = [ev[1] for ev in tr if ev[0] == "td-reg"]
+        # reference stack: callbacks registered during the teardown run right after the callback that registered them
+        regs: list = []
+        for r in regs0:
+            regs.append(r)
+        expected = []
+        for r in reversed(regs0):
+            expected.append(r)
+            if any(ev[0] == "td-reg-late" and ev[1] == r + "+nested" for ev in tr) or r.startswith("td2:") and r.endswith(":start"):
+                expected.append(r + "+nested")
+        regs = list(reversed(expected))
         tds = [ev[1] for ev in tr[:ra] if ev[0] == "td"]
         late = [ev for ev in tr[ra + 1:] if ev[0] not in ("log",)]
         if late:
